@@ -183,6 +183,9 @@ func (fr *Frame) visibleNames(loop *Loop) map[string]types.Type {
 				m["rangeindex"] = types.Typ[types.Int] // elements of the ranged slice already visited
 			}
 		}
+		if rs := rangedSlice(loop.Header); rs != nil {
+			m["rangeslice"] = rs.Type() // the slice a `for ... range` loop iterates over (often an unnamed call result)
+		}
 	}
 	for k, t := range fr.oldTypes {
 		m[k] = t
@@ -338,6 +341,16 @@ func (fr *Frame) resolveName(n string, st *State, loop *Loop, extra map[string]*
 				if pv, ok := st.regs[phi]; ok {
 					return fr.x.c.BVBin("bvadd", pv, fr.x.c.BV(1, 64))
 				}
+			}
+		}
+	}
+	if loop != nil && n == "rangeslice" {
+		if rs := rangedSlice(loop.Header); rs != nil {
+			if _, isConst := rs.(*ssa.Const); isConst {
+				return fr.value(st, rs)
+			}
+			if t, ok := st.regs[rs]; ok {
+				return t
 			}
 		}
 	}
@@ -806,6 +819,28 @@ func (env *Env) typedLoad(addr *Term, t types.Type) *Term {
 	v := x.load(env.st, addr, t)
 	if v.sort == SRef && !v.open && v.op == "select" && v.args[0].op == "var" {
 		x.ptrTag(x.c.True(), v, t)
+	}
+	// ... and the allocation fact: what a memory symbol holds existed when that memory came into being (function entry,
+	// or the end of the havoc that created it), so it is older than anything allocated afterwards
+	if (v.sort == SRef || v.sort == SSlice) && !v.open && v.op == "select" && v.args[0].op == "var" && x.entryAlloc != nil {
+		var bound *Term
+		name := v.args[0].name
+		if strings.HasPrefix(name, "mem0_") {
+			bound = x.entryAlloc
+		} else {
+			key := name
+			if m := epochNameRe.FindStringSubmatch(key); m != nil {
+				key = m[1]
+			}
+			bound = x.memBound[key]
+		}
+		if bound != nil {
+			r := v
+			if v.sort == SSlice {
+				r = x.c.SlPtr(v)
+			}
+			x.assume(x.c.True(), x.c.IntCmp("<", x.c.RRoot(r), bound))
+		}
 	}
 	return v
 }
